@@ -81,6 +81,14 @@ Variant ==
                    \cup (IF baseok /\ Ev.accepted /\ Ev.digest # Ev.base THEN {"LayoutChangesModel"} ELSE {})
   /\ st' = st /\ l' = l + 1
 
+\* beyond the listed properties: the linter's warnings about calls are exactly the dangling calls (no verdict)
+Lint ==
+  /\ Is("lint")
+  /\ LET got == FactSet(Ev.warnings)
+         want == LintWant(st)
+     IN (got # want) => Say("EXTRA", Ev.t, [missing |-> want \ got, spurious |-> got \ want])
+  /\ st' = st /\ bad' = bad /\ l' = l + 1
+
 Ret ==
   /\ Is("ret")
   /\ LET b == bad \cup (IF Ev.ok THEN {} ELSE {"Rejected"}) \cup (IF st.scope # <<>> THEN {"IllFormedProgram"} ELSE {})
@@ -88,7 +96,7 @@ Ret ==
         /\ bad' = {}
   /\ st' = st /\ l' = l + 1
 
-Normal == Begin \/ Decl \/ State \/ Locs \/ Variant \/ Ret
+Normal == Begin \/ Decl \/ State \/ Locs \/ Variant \/ Lint \/ Ret
 
 Skip == /\ l <= Len(Trace) /\ ~ENABLED Normal
         /\ Say("REJECT", Ev.t, Ev.e)
